@@ -225,8 +225,11 @@ func (d *decodingReader) decode(f frame.Frame) error {
 		}
 		// This is guaranteed by gob, but it seems worthy of some defensive programming here.
 		// It's also an extra check against the correctness of the codec.
-		if pHdr.Data != sh.Data {
-			panic("gob reallocated a slice")
+		if pHdr.Data != sh.Data || pHdr.Len != sh.Len {
+			// Gob decodes into the provided slice only if the encoded
+			// column has exactly the batch's length. Anything else means
+			// that the stream is damaged.
+			return errors.E(errors.Integrity, fmt.Sprintf("column %d does not have the batch's length", col))
 		}
 	}
 	sum := d.crc.Sum32()
